@@ -34,6 +34,7 @@ type Config struct {
 	DeadlockOK      bool
 	PreemptBound    int
 	MaxSleeps       int
+	Witnesses       int
 }
 
 const modPath = "github.com/rs/zerolog"
@@ -121,7 +122,7 @@ func (e *Engine) Load() error {
 		}
 	}
 	e.refused = map[string]bool{}
-	for _, p := range []string{"reflect", "internal/reflectlite", "encoding/json", "os", "syscall", "runtime", "net/http", "log", "fmt"} {
+	for _, p := range []string{"reflect", "internal/reflectlite", "encoding/json", "os", "syscall", "runtime", "net/http", "log", "fmt", "time"} {
 		e.refused[p] = true
 	}
 	return nil
